@@ -34,6 +34,10 @@ func main() {
 		cmdEngineReplay(os.Args[2:])
 	case "lib-replay":
 		cmdLibReplay(os.Args[2:])
+	case "grb-faults":
+		cmdGrbFaults(os.Args[2:])
+	case "grb-writer-replay":
+		cmdGrbWriterReplay(os.Args[2:])
 	default:
 		fmt.Fprintln(os.Stderr, "unknown subcommand", os.Args[1])
 		os.Exit(2)
